@@ -111,6 +111,10 @@ pub struct Resources {
     /// engine-level BatchSemaphores: (initial permits, strictly fair?)
     #[serde(default)]
     pub sems: Vec<(usize, bool)>,
+    /// Once initialisers perform an atomic load of atomic 0 (event IL): an initialiser that
+    /// synchronises, used by C15
+    #[serde(default)]
+    pub once_init_load: bool,
 }
 
 #[derive(Clone, Debug, PartialEq, Eq, Serialize, Deserialize, Default)]
@@ -525,6 +529,22 @@ pub struct VLabel(pub u64);
 
 pub struct StackVal(usize);
 
+/// a value captured by a spawned thread's closure (events CI / CD)
+pub struct CapVal(usize);
+
+impl CapVal {
+    fn new(b: usize) -> Self {
+        log("CI", b.to_string(), "");
+        CapVal(b)
+    }
+}
+
+impl Drop for CapVal {
+    fn drop(&mut self) {
+        log("CD", self.0.to_string(), "");
+    }
+}
+
 impl Drop for StackVal {
     fn drop(&mut self) {
         log("SD", self.0.to_string(), "");
@@ -635,7 +655,16 @@ fn exec_op(l: &mut Local, label: &str, uv: u64, op: &Op) {
             let b = *b;
             *ctx.parent_thread[b].lock().unwrap() = Some(thread::current());
             let c2 = ctx.clone();
-            let h = thread::Builder::new().name(format!("body{}", b)).spawn(move || run_body(c2, b)).unwrap();
+            // a value captured by the thread's closure: dropped by the child when its closure ends,
+            // or with the never-started closure when the execution is over
+            let cap = CapVal::new(b);
+            let h = thread::Builder::new()
+                .name(format!("body{}", b))
+                .spawn(move || {
+                    let _cap = cap;
+                    run_body(c2, b)
+                })
+                .unwrap();
             let tid: usize = h.thread().id().into();
             l.handles.push(Some(h));
             tid.to_string()
@@ -819,6 +848,10 @@ fn exec_op(l: &mut Local, label: &str, uv: u64, op: &Op) {
                     }
                 }
                 log("I", o.to_string(), body.to_string());
+                if c2.prog.res.once_init_load && !c2.atomics.is_empty() {
+                    let v = c2.atomics[0].load(Ordering::SeqCst);
+                    log("IL", o.to_string(), v.to_string());
+                }
                 if yi {
                     thread::yield_now();
                     log("Y", "", "");
